@@ -1,5 +1,6 @@
 #!/bin/bash
-# seedrun.sh <seeded-dir-name> <CHECK-ID> [tier]: run one check against a seeded change in isolation.
+# seedrun.sh <seeded-dir-name | fix-commit-hash> <CHECK-ID> [tier]: run one check against a seeded change (or against
+# the reverse of a fix commit, regress/<hash>.diff) in isolation.
 # Makes a scratch git worktree of /repo (HEAD + the seeded patch) and a scratch copy of /verif's machinery
 # under /tmp, builds there (VERIF_REPO / VERIF_ROOT point at the copies), runs the check, prints the
 # verdict lines and removes both copies. /repo and /verif themselves are not touched.
@@ -10,7 +11,8 @@ WT=/tmp/sw/$S-$ID; SV=/tmp/sv/$S-$ID
 rm -rf $SV; git -C /repo worktree remove --force $WT 2>/dev/null; rm -rf $WT
 mkdir -p /tmp/sw /tmp/sv $SV
 git -C /repo worktree add --detach -q $WT HEAD || { echo "$S $ID: worktree failed"; exit 3; }
-git -C $WT apply $SRC/seeded/$S/patch.diff || { echo "$S $ID: PATCH-DOES-NOT-APPLY"; git -C /repo worktree remove --force $WT; exit 3; }
+P=$SRC/seeded/$S/patch.diff; [ -f $P ] || P=$SRC/regress/$S.diff   # a fix commit's hash selects its reverse patch
+git -C $WT apply $P || { echo "$S $ID: PATCH-DOES-NOT-APPLY"; git -C /repo worktree remove --force $WT; exit 3; }
 cp -r $SRC/harness $SRC/oracle $SRC/known_findings.jsonl $SRC/build.sh $SRC/check $SV/
 export VERIF_REPO=$WT VERIF_ROOT=$SV GOFLAGS=-mod=mod GOPROXY=off GOSUMDB=off GOTOOLCHAIN=local
 if ! $SV/build.sh $ID > $SV/build.log 2>&1; then echo "$S $ID: BUILD-FAILED"; tail -5 $SV/build.log; else
